@@ -67,6 +67,29 @@ def _helper_and_empty(loop_body):
             "        return _check_testv(testv, lambda offset, length: b\"\")\n")
 
 
+SIZE_CHECK = (
+    "        for sharenum in test_and_write_vectors:\n"
+    "            (testv, datav, new_length) = test_and_write_vectors[sharenum]\n"
+    "            for (offset, data) in datav:\n"
+    "                if offset + len(data) > MutableShareFile.MAX_SIZE:\n"
+    "                    raise DataTooLargeError()\n")
+APPLY_HEAD = (
+    "        for sharenum in test_and_write_vectors:\n"
+    "            (testv, datav, new_length) = test_and_write_vectors[sharenum]\n"
+    "            if new_length == 0:\n"
+    "                if sharenum in shares:\n")
+APPLY_TAIL = "                    os.rmdir(bucketdir)\n        return remaining_shares\n"
+MAKE_LEASE_INFO = "    def _make_lease_info(self, renew_secret, cancel_secret):\n"
+
+
+def _size_helper(params, loop):
+    return ("    def _refuse_oversized_writes(self, %s):\n"
+            "        for sharenum in %s:\n"
+            "            for (offset, data) in vectors[sharenum][1]:\n"
+            "                if offset + len(data) > MutableShareFile.MAX_SIZE:\n"
+            "                    raise DataTooLargeError()\n\n" % (params, loop)) + MAKE_LEASE_INFO
+
+
 EVAL_TESTV_LOOP = (
     "        for sharenum in test_and_write_vectors:\n"
     "            (testv, datav, new_length) = test_and_write_vectors[sharenum]\n" + TESTV_BRANCHES +
@@ -256,6 +279,63 @@ MUTANTS = [
       edits=[(SRV, "from allmydata.storage.common import si_b2a, si_a2b, storage_index_to_dir\n",
               "from allmydata.storage.common import si_b2a, si_a2b, storage_index_to_dir, DataTooLargeError\n")],
       note="the repair of the C24.8 finding: the rule must accept it (and C23 must still analyse the write loop)"),
+    # ---- C24.8 the early refusal covers every write of every named share (gap review)
+    M("size-check-removed", SRV, SIZE_CHECK, "", "C24.8",
+      note="the tree before fix b415ab1: share 0 is written, then share 1's oversized write raises DataTooLargeError"),
+    M("size-check-existing-shares-only", SRV, SIZE_CHECK, SIZE_CHECK.replace("for sharenum in test_and_write_vectors:", "for sharenum in shares:"), "C24.8",
+      note="{0: write 'x', 7 (new): write at MAX_SIZE}: share 0 is modified, then creating share 7 raises DataTooLargeError"),
+    M("size-check-first-write-only", SRV, SIZE_CHECK, SIZE_CHECK.replace("in datav:", "in datav[:1]:"), "C24.8"),
+    M("size-check-stops-after-first-share", SRV, "                    raise DataTooLargeError()\n\n        for sharenum",
+      "                    raise DataTooLargeError()\n            break\n\n        for sharenum", "C24.8"),
+    M("size-check-ignores-data-length", SRV, "                if offset + len(data) > MutableShareFile.MAX_SIZE:\n",
+      "                if offset > MutableShareFile.MAX_SIZE:\n", "C24.8",
+      note="offset = MAX_SIZE - 1 with two bytes passes the early check and is refused by _change_container_size"),
+    M("size-check-skips-existing-shares", SRV, SIZE_CHECK, SIZE_CHECK.replace(
+        "            for (offset, data) in datav:\n", "            if sharenum in shares:\n                continue\n            for (offset, data) in datav:\n"), "C24.8"),
+    M("size-check-walks-test-vector", SRV, SIZE_CHECK, SIZE_CHECK.replace(
+        "            for (offset, data) in datav:\n", "            for (offset, length, operator, data) in testv:\n"), "C24.8"),
+    M("size-check-helper-existing-only", SRV, SIZE_CHECK, "        self._refuse_oversized_writes(test_and_write_vectors, shares)\n", "C24.8",
+      edits=[(SRV, MAKE_LEASE_INFO, _size_helper("vectors, shares", "shares"))]),
+    M("size-check-unrelated-condition", SRV, SIZE_CHECK,
+      "        if len(test_and_write_vectors) > 256:\n            raise DataTooLargeError()\n", "ANALYSIS-ERROR",
+      note="an early raise of the same class that does not examine the writes must not satisfy the rule by its name"),
+    M("benign-size-check-items", SRV, SIZE_CHECK,
+      "        for sharenum, (testv, datav, new_length) in test_and_write_vectors.items():\n"
+      "            for (offset, data) in datav:\n"
+      "                end = offset + len(data)\n"
+      "                if not end <= MutableShareFile.MAX_SIZE:\n"
+      "                    raise DataTooLargeError()\n", None),
+    M("benign-size-check-indexed", SRV, SIZE_CHECK,
+      "        for sharenum, vectors in sorted(test_and_write_vectors.items()):\n"
+      "            for write in vectors[1]:\n"
+      "                if write[0] + len(write[1]) > MutableShareFile.MAX_SIZE:\n"
+      "                    raise DataTooLargeError()\n", None),
+    M("benign-size-check-skips-empty-vectors", SRV, SIZE_CHECK, SIZE_CHECK.replace(
+        "            for (offset, data) in datav:\n", "            if not datav:\n                continue\n            for (offset, data) in datav:\n"), None),
+    M("benign-size-check-helper", SRV, SIZE_CHECK, "        self._refuse_oversized_writes(test_and_write_vectors)\n", None,
+      edits=[(SRV, MAKE_LEASE_INFO, _size_helper("vectors", "vectors"))]),
+    M("benign-size-check-in-caller", SRV, SIZE_CHECK, "", None,
+      edits=[(SRV, "        if testv_is_good:\n            # now apply the write vectors\n",
+              "        for sharenum in test_and_write_vectors:\n"
+              "            for (offset, data) in test_and_write_vectors[sharenum][1]:\n"
+              "                if offset + len(data) > MutableShareFile.MAX_SIZE:\n"
+              "                    raise DataTooLargeError()\n"
+              "        if testv_is_good:\n            # now apply the write vectors\n")]),
+    # ---- C24.10 the write stage visits every named share (gap review)
+    M("write-stage-stops-after-first-share", SRV, APPLY_TAIL,
+      "                    os.rmdir(bucketdir)\n            break\n        return remaining_shares\n", "C24.10",
+      note="a two-share request writes one share and reports success"),
+    M("write-stage-existing-shares-only", SRV, APPLY_HEAD, APPLY_HEAD.replace("for sharenum in test_and_write_vectors:", "for sharenum in shares:"), "C24.10"),
+    M("write-stage-first-named-share", SRV, APPLY_HEAD, APPLY_HEAD.replace(
+        "for sharenum in test_and_write_vectors:", "for sharenum in list(test_and_write_vectors)[:1]:"), "C24.10"),
+    M("write-stage-returns-after-delete", SRV, "                    shares[sharenum].unlink()\n",
+      "                    shares[sharenum].unlink()\n                    return remaining_shares\n", "C24.10"),
+    M("benign-write-stage-items", SRV, APPLY_HEAD,
+      "        for sharenum, (testv, datav, new_length) in sorted(test_and_write_vectors.items()):\n"
+      "            if new_length == 0:\n                if sharenum in shares:\n", None),
+    # ---- C24.3 every collected share is read (gap review: the per-iteration check was vacuous)
+    M("read-stage-skips-empty-shares", SRV, "            read_data[sharenum] = share.readv(read_vector)\n",
+      "            if not share.get_length():\n                continue\n            read_data[sharenum] = share.readv(read_vector)\n", "C24.3"),
     # ---- behaviour-preserving
     M("benign-verdict-renamed", SRV, "        testv_is_good = self._evaluate_test_vectors(", "        ok = self._evaluate_test_vectors(", None,
       edits=[(SRV, "        if testv_is_good:\n", "        if ok:\n"), (SRV, "        return (testv_is_good, read_data)", "        return (ok, read_data)")]),
